@@ -595,8 +595,8 @@ def normalize_path(path: bytes) -> tuple[bytes, str]:
         if segment == b".":
             pass
         elif segment == b"..":
-            if dotless:
-                dotless.pop()
+            if len(dotless) > 1 or (dotless and dotless[0] != b""):
+                dotless.pop()  # never pop the empty first segment, it is the root of an absolute path
         else:
             dotless.append(segment)
     if dotless == [b""]:
